@@ -241,6 +241,18 @@ func c13Run(c *Ctx, idx int) {
 			c.Nontrivial(t.text, before)
 		}
 	}
+	// the same through expressions that may hand the caller's array (or part of
+	// it) straight to the sort routine
+	for _, text := range []string{"sort(xs[*])", "sort(xs[:])", "sort(xs[0:])", "sort(xs[?`true`])", "sort(to_array(xs))", "sort(not_null(xs))", "sort(xs || `[]`)", "sort((xs))", "sort(rs[*].k)", "sort_by(rs[*], &k)[*].id", "sort_by(rs[:], &k)[*].id", "sort_by(to_array(rs), &k)[*].id", "reverse(xs[*])", "reverse(xs[:])", "max_by(rs[*], &k).id", "min_by(rs[:], &k).id", "sort(xs[*]) == sort(xs)", "[xs][0] | sort(@)", "let $x = xs in sort($x)", "merge({k: xs}, {j: rs}).k | sort(@)"} {
+		l := c.LibSearch(text, goDoc)
+		if l.Panic != nil {
+			c.Report(Violation{Rule: "C13/unexpected-failure", Expr: text, Data: clipS(before, 600), Got: ShowOut(l), Features: feats})
+		}
+		if after := gen.Describe(goDoc); after != before {
+			c.Report(Violation{Rule: "C13/input-modified", Expr: text, Data: clipS(before, 600), Got: clipS(after, 600), Features: feats})
+			before = after
+		}
+	}
 	if after := gen.Describe(goDoc); after != before {
 		c.Report(Violation{Rule: "C13/input-modified", Expr: "sort/sort_by/min/max(_by)", Data: clipS(before, 600), Got: clipS(after, 600), Features: feats})
 	}
